@@ -745,3 +745,32 @@ F7_NEW = '        if self.dim == 2:\n            return list(distinct(self.edges
 F7_TWIN = '        if self.dim == 2:\n            return list(distinct(self.edges.intersect(other)))\n\n        # A segment is intersected through its supporting line, so lines and segments share one code path;\n        # the points that are found are tested against the segment at the end.\n        segment = other if isinstance(other, SegmentTensor) else None\n        line = other if segment is None else segment._line\n\n        polygons: PolygonTensor = self\n\n        try:\n            result = self._plane.meet(line)\n        except LinearDependenceError as e:\n            # The planes that contain the line have no single point in common with it: drop these polygons\n            # and intersect the remaining ones. With one line (segment) per polygon, the partners of the\n            # dropped polygons have to go as well to keep the shapes aligned.\n            keep = ~e.dependent_values\n            polygons = PolygonCollection.from_tensor(self[keep])\n            if line.free_indices > 0:\n                line = cast(LineTensor, line[keep])\n            segment = cast(SegmentTensor, segment[keep]) if isinstance(segment, SegmentCollection) else segment\n            result = cast(PlaneTensor, self._plane[keep]).meet(line)\n\n        ind = polygons.contains(result)\n        if segment is not None:\n            ind = ind & segment.contains(result)\n\n        return list(result[ind])\n'
 V("intersect restructured around one try statement: the single segment is dropped in the handler", "C18", SHAPES, F7_OLD, F7_NEW, "E10.F7", "PolygonTensor.intersect", quick=True)
 V("twin: the same restructuring keeping the single segment", "C18", SHAPES, F7_OLD, F7_TWIN, "silent")
+
+
+# ------------------------------------------------------------------------------------------------ the cone with a general axis (E19, after the repair D25)
+_CONE_ANGLE = "            a = np.arctan2(np.linalg.norm(n), d[2])\n"
+V("Cone: rotation about the normal taken the other way round", "C13", CURVE, "            n = np.cross([0, 0, 1], d)\n", "            n = np.cross(d, [0, 0, 1])\n", "E19", "Cone.__init__")
+V("Cone: the complement of the angle between the axes", "C13", CURVE, _CONE_ANGLE, "            a = np.arctan2(d[2], np.linalg.norm(n))\n", "E19", "Cone.__init__")
+V("Cone: the acute angle between the axes (wrong for axes pointing downwards)", "C13", CURVE, _CONE_ANGLE, "            a = np.arctan2(np.linalg.norm(n), np.abs(d[2]))\n", "E19", "Cone.__init__")
+V("Cone: the angle from the sine only (arcsin covers a quarter turn)", "C13", CURVE, _CONE_ANGLE, "            a = np.arcsin(min(np.linalg.norm(n) / np.linalg.norm(d), 1.0))\n", "E19", "Cone.__init__")
+V("twin: Cone with the angle from the cosine", "C13", CURVE, _CONE_ANGLE, "            a = np.arccos(d[2] / np.linalg.norm(d))\n", "silent")
+V("twin: Cone with the axis direction reversed (the double cone is symmetric)", "C13", CURVE, "            d = base_center.normalized_array[:3] - v[:3]\n", "            d = v[:3] - base_center.normalized_array[:3]\n", "silent")
+V("Cone: conjugation of the quadric matrix with the transposes exchanged", "C13", CURVE, "            m = t.array.T.dot(m).dot(t.array)", "            m = t.array.dot(m).dot(t.array.T)", "E19", "Cone.__init__")
+V("Cone: rotation about the origin instead of the vertex", "C13", CURVE, "            t = translation(v) * t * translation(-v)\n", "", "E19", "Cone.__init__")
+V("D25 regression: Cone aligned by the Laguerre angle about the normal of the join", "C13", CURVE,
+  "            n = np.cross([0, 0, 1], d)\n" + _CONE_ANGLE + "            t = rotation(a, axis=Point(*n))\n",
+  "            from geometer.operators import angle\n            a = angle(axis, new_axis)\n            e = axis.join(new_axis)\n            t = rotation(a, axis=Point(*e.array[:3]))\n", "missed")
+
+
+# ------------------------------------------------------------------------------------------------ E19: buffers written through helpers, tuple targets, loops (first false alarms of the rule)
+_BORDER_DEF = "def _border(m, v):\n    m[-1, :] = v\n    m[:, -1] = v\n\n\nclass Sphere(Quadric):"
+V("twin: Sphere with the border written by a helper that fills the buffer in place", "C13", CURVE, "        m[-1, :] = c\n        m[:, -1] = c\n        m[-1, -1] = c[:-1].dot(c[:-1]) - radius**2",
+  "        _border(m, c)\n        m[-1, -1] = c[:-1].dot(c[:-1]) - radius**2", "silent", extra=[(CURVE, "class Sphere(Quadric):", _BORDER_DEF)])
+V("Sphere with the border written by an in-place helper that is handed the centre with the wrong sign", "C13", CURVE, "        m[-1, :] = c\n        m[:, -1] = c\n        m[-1, -1] = c[:-1].dot(c[:-1]) - radius**2",
+  "        _border(m, -c)\n        m[-1, -1] = c[:-1].dot(c[:-1]) - radius**2", "E19", "Sphere.__init__", extra=[(CURVE, "class Sphere(Quadric):", _BORDER_DEF)])
+V("twin: Ellipse with the diagonal stored through a tuple of item targets", "C13", CURVE, "        m[[0, 1], [0, 1]] = r[:2]\n", "        m[0, 0], m[1, 1] = r[0], r[1]\n", "silent")
+V("twin: Sphere with the last row written in a loop", "C13", CURVE, "        m[-1, :] = c\n        m[:, -1] = c\n", "        for k in range(len(c)):\n            m[-1, k] = c[k]\n        m[:, -1] = c\n", "silent")
+V("twin: Sphere with the last column written through a view", "C13", CURVE, "        m[:, -1] = c\n        m[-1, -1] = c[:-1].dot(c[:-1]) - radius**2", "        col = m[:, -1]\n        col[:] = c\n        col[-1] = c[:-1].dot(c[:-1]) - radius**2", "silent")
+V("twin: Sphere built on an alias of the buffer", "C13", CURVE, "        m[-1, :] = c\n        m[:, -1] = c\n", "        k = m\n        k[-1, :] = c\n        k[:, -1] = c\n", "silent")
+V("twin: from_points that patches an entry of the source matrix afterwards (unread write)", "C08", TRANS, "        d1 = np.linalg.solve(m1, a[-1])  # type: ignore[arg-type]\n",
+  "        m1[0, 0] = m1[0, 0] + 0\n        d1 = np.linalg.solve(m1, a[-1])  # type: ignore[arg-type]\n", "silent")
